@@ -36,3 +36,18 @@ package std
 //@   trusted
 //@   ensures deref(addr) == val
 //@   assigns addr
+
+// Streams: what a reader yields is unconstrained (any byte sequence); a successful io.ReadFull fills the whole buffer.
+//@ ext io.ReadFull(r, buf)
+//@   trusted
+//@   ensures n >= 0 && n <= len(buf)
+//@   assigns elems(buf)
+//@ iface io.Writer.Write(p)
+//@   trusted
+//@   assigns nothing
+//@ ext encoding/binary.(littleEndian).Uint64(le, b)
+//@   trusted
+//@   pure
+//@ ext encoding/binary.(littleEndian).PutUint64(le, b, v)
+//@   trusted
+//@   assigns elems(b)
